@@ -143,6 +143,8 @@ OpsNow ==
                             (* on screen; writing from such a closure is the caller's own business.   *)
                             -> IF nm = "suspend" /\ ~Visible(S, b) THEN {} ELSE { ([m |-> TextOf(s, nlog)] @@ BarOp(nm, b, dt)) : s \in (IF nm = "suspend" THEN TextShapes \ {"e", "nl", "Tnl", "nlT"} ELSE TextShapes) }
                        [] nm \in {"set_style", "restyle"} -> { ([tpl |-> t] @@ BarOp(nm, b, dt)) : t \in (IF nm = "restyle" THEN Tpls \ {"KM", "KC"} ELSE Tpls) }
+                       (* the style of another bar (ProgressBar::style()) given to this one *)
+                       [] nm = "copy_style" -> { ([b2 |-> o] @@ BarOp(nm, b, dt)) : o \in AliveBars \ {b} }
                        [] nm = "set_tab_width" -> { ([n |-> n] @@ BarOp(nm, b, dt)) : n \in {0, 1, 4} }
                        [] nm = "mp_remove" -> IF S.bars[b].inmp THEN { BarOp(nm, b, dt) } ELSE {}
                        [] nm = "set_target" ->
@@ -238,7 +240,7 @@ IAdvance(i, o, S0, S1) ==
               [] o.op \in {"mp_suspend", "suspend"} -> IPaint([i EXCEPT !.zl = 0, !.ll = 0], S1, FALSE)
               [] o.op = "drop" -> IF ~inord THEN i
                                   ELSE IZombie(IF S0.bars[o.b].fin = "no" THEN IPaint(i, S1, FALSE) ELSE i, S1, o.b)
-              [] o.op \in {"set_style", "restyle", "clone", "drop_one", "mp_set_alignment", "mp_set_move_cursor", "reset_eta", "reset_elapsed", "fail_at", "is_hidden", "downgrade", "upgrade"} -> i
+              [] o.op \in {"set_style", "restyle", "copy_style", "clone", "drop_one", "mp_set_alignment", "mp_set_move_cursor", "reset_eta", "reset_elapsed", "fail_at", "is_hidden", "downgrade", "upgrade"} -> i
               [] OTHER -> IF inord THEN IPaint(i, S1, FALSE) ELSE i
 
 Step == /\ Len(hist) < D
